@@ -151,7 +151,7 @@ ObsBlock ==
     \* an unblocked PruneTrie call was issued by this step (it flushes the buffer); only traces whose
     \* driver avoids the triggers of the known deviations are held to the strict garbage property here
     /\ quiet' = /\ clean
-                /\ \/ (Ev.a = "Finalize" /\ Ev.out.pruned # 0)
+                /\ \/ (Ev.a = "Finalize" /\ Ev.out.pruned # 0 /\ Ev.out.cp = 0)   \* cp: the call blocked pruning first
                    \/ Ev.a = "Rollback"
                 /\ Ev.in.wasblocked = 0
     /\ blocked' = Ev.st.blk
@@ -187,6 +187,8 @@ Report_D3 == (quiet /\ (Garbage \cap leak.D3) # {}) => PrintT("@@KFD3 " \o ToStr
 
 Report_E1 == (\E j \in JobIds : jobs[j].judged /\ ~jobs[j].ok /\ ExplainedE1(j)) => PrintT("@@KFE1 " \o ToString(l - 1))
 Report_E2 == (\E j \in JobIds : jobs[j].judged /\ ~jobs[j].ok /\ ~ExplainedE1(j) /\ ExplainedE2(j)) => PrintT("@@KFE2 " \o ToString(l - 1))
+
+Report_E3 == (\E j \in JobIds : jobs[j].judged /\ ~jobs[j].ok /\ ~ExplainedE1(j) /\ ~ExplainedE2(j) /\ ExplainedE3(j)) => PrintT("@@KFE3 " \o ToString(l - 1))
 
 \* high-water mark of consumed lines (register 1), needs -workers 1
 HighWater == TLCSet(1, IF l > TLCGet(1) THEN l ELSE TLCGet(1))
